@@ -16,6 +16,7 @@ from . import symex as sx
 from . import term as tm
 
 ROOT = os.path.dirname(os.path.dirname(os.path.abspath(__file__)))
+OUT = os.environ.get("PYVC_OUT", ROOT)  # evidence/ and replays/ go here (scratch runs of the seed matrix redirect them)
 ERROR = "ERROR"
 
 SEMANTICS = [
@@ -197,10 +198,10 @@ def main(argv=None):
     undecided = []
     errors = []
     canaries_ok = True
-    os.makedirs(os.path.join(ROOT, "replays"), exist_ok=True)
-    for fn in os.listdir(os.path.join(ROOT, "replays")):
+    os.makedirs(os.path.join(OUT, "replays"), exist_ok=True)
+    for fn in os.listdir(os.path.join(OUT, "replays")):
         if fn.startswith(prop + "-"):
-            os.remove(os.path.join(ROOT, "replays", fn))
+            os.remove(os.path.join(OUT, "replays", fn))
     for ob in obligs:
         v = ob.verdict
         if ob.expect == be.REFUTED:
@@ -231,7 +232,7 @@ def main(argv=None):
                 path = os.path.join("replays", f"{prop}-{ob.id.replace('/', '_')}.json")
                 json.dump(jsonable({"property": prop, "obligation": ob.id, "statement": ob.statement, "functions": ob.functions, "backend": v.backend,
                                     "prover_output": "UNDECIDED by the prover (" + (v.detail or "")[:300] + "); concrete failing input found by the obligation's bounded search on the real code",
-                                    "witness": {}, "replay": rep, "bounded": False}), open(os.path.join(ROOT, path), "w"), indent=1)
+                                    "witness": {}, "replay": rep, "bounded": False}), open(os.path.join(OUT, path), "w"), indent=1)
                 violations.append((ob, path, True))
             else:
                 undecided.append(ob)
@@ -252,7 +253,7 @@ def main(argv=None):
             "property": prop, "obligation": ob.id, "statement": ob.statement, "functions": ob.functions,
             "backend": v.backend, "prover_output": v.detail, "witness": v.witness, "replay": rep,
             "source": [ctx.engine.source_of(q) for q in ob.functions if ":" in q and _resolvable(ctx, q)],
-        }), open(os.path.join(ROOT, path), "w"), indent=1)
+        }), open(os.path.join(OUT, path), "w"), indent=1)
         violations.append((ob, path, bool(rep and rep.get("reproduced"))))
 
     # ---- bounded layer (labelled bounded; never counted as proved)
@@ -269,7 +270,7 @@ def main(argv=None):
                 known.append((None, f))
                 continue
             path = os.path.join("replays", f"{prop}-bounded-{fingerprint(json.dumps(jsonable(bv), sort_keys=True))}.json")
-            json.dump(jsonable({"property": prop, "obligation": "bounded:" + str(bv.get("clause")), "bounded": True, **bv}), open(os.path.join(ROOT, path), "w"), indent=1)
+            json.dump(jsonable({"property": prop, "obligation": "bounded:" + str(bv.get("clause")), "bounded": True, **bv}), open(os.path.join(OUT, path), "w"), indent=1)
             violations.append((None, path, True))
 
     # an undecided / out-of-subset obligation whose property also shows a concrete bounded violation is
@@ -367,8 +368,8 @@ def write_evidence(mod, ctx, obligs, real, discharged, known, violations, undeci
         "assumptions": SEMANTICS + list(getattr(mod, "ASSUMPTIONS", [])),
         "wall_s": round(wall, 2), "violations": len(violations),
     }
-    os.makedirs(os.path.join(ROOT, "evidence"), exist_ok=True)
-    json.dump(jsonable(ev), open(os.path.join(ROOT, "evidence", f"{prop}.json"), "w"), indent=1)
+    os.makedirs(os.path.join(OUT, "evidence"), exist_ok=True)
+    json.dump(jsonable(ev), open(os.path.join(OUT, "evidence", f"{prop}.json"), "w"), indent=1)
 
 
 def do_replay(mod, ctx, path):
